@@ -768,7 +768,8 @@ func (st *state) apply(o op, r *core.Run) *core.Violation {
 		buf.WriteString(layouts[o.layout[len(o.doc)]])
 		data := buf.Bytes()
 		st.loads++
-		fname := fmt.Sprintf("doc%d.cedar", st.loads)
+		// file names are opaque strings to the library: whatever was given is what positions report
+		fname := fmt.Sprintf([]string{"doc%d.cedar", "./doc%d.cedar", "policies//doc%d.cedar", "a/../doc%d.cedar", "dir%d/", "C:\\pol\\doc%d.cedar", " doc %d .cedar", "doc%d.cedar/."}[(st.loads+len(o.doc))%8], st.loads)
 		ps, err := cedar.NewPolicySetFromBytes(fname, data)
 		if err != nil {
 			return viol("load-error", "loading a valid generated document failed: %v\n%s", err, data)
